@@ -646,7 +646,8 @@ class Wigner:
             else np.zeros_like(mode_weights)
         )
 
-        if horner:
+        if horner or self.ell_min > max(abs(spin_weight), ell_min):
+            # (the matrix route only has 𝔇 for ell >= self.ell_min; the Horner route handles every ell)
             if workspace is not None:
                 Hwedge, Hv, Hextra, _, _, z = self._split_workspace(workspace)
             else:
